@@ -805,6 +805,8 @@ class KEval:
                 if isinstance(a, tuple) and isinstance(b, tuple) and isinstance(e.op, ast.Add):
                     return a + b
                 return TOP
+            if isinstance(a, Cond) and isinstance(b, Cond) and isinstance(e.op, (ast.BitAnd, ast.BitOr)):
+                return Cond("and" if isinstance(e.op, ast.BitAnd) else "or", a, b, node=e)  # element-wise boolean combination
             for x, y, left in ((a, b, True), (b, a, False)):
                 if isinstance(x, Ref) and x.local and not x.idx and x.name in self._allocs and x.init and isinstance(x.init[1], Poly) \
                         and not any(st_.arr == x.name for st_ in S.stores) \
@@ -1033,6 +1035,9 @@ class KEval:
                     return Poly.fn(name, *sc, *kws)
             return TOP
 
+        # sequence builders keep their structure (children, axis) so that rules can compare them as sets of parts
+        if name in ("stack", "concatenate", "vstack", "hstack") and args and isinstance(args[0], tuple):
+            return Ctor("numpy", name, {"seq": args[0], "axis": kw.get("axis", args[1] if len(args) > 1 else Const(None))})
         # a python list that is grown in place is no longer the literal it started as
         if isinstance(fn, ast.Attribute) and name in ("append", "extend", "insert", "pop", "remove") and isinstance(fn.value, ast.Name) \
                 and isinstance(env.get(fn.value.id), tuple):
